@@ -920,7 +920,12 @@ func main() {
 		}
 	}
 	var w *workerProc
+	failedCases := 0
 	for _, c := range cases {
+		if failedCases >= 6 {
+			run.Count("stopped-early-after-6-failing-cases")
+			break
+		}
 		id := run.NewID()
 		if w == nil {
 			w = startWorker()
@@ -944,12 +949,16 @@ func main() {
 			run.Case(id, "CRASH", "CRASH")
 			run.OracleFail(id, sig, "the worker process died while running this case: "+strings.ReplaceAll(msg, "\n", " | "), replay)
 			w = nil
+			failedCases++
 			continue
 		}
 		run.Case(id, res.Model, res.Impl)
 		run.TracesAgainstImpl++
 		for _, f := range res.Fails {
 			run.OracleFail(id, f[0], f[1], replay)
+		}
+		if len(res.Fails) > 0 {
+			failedCases++
 		}
 		for _, k := range res.Counts {
 			run.Count(k)
